@@ -1,0 +1,21 @@
+//go:build verif
+
+package alpm
+
+// Machine-checked contracts for this package (checked by /verif/govc; see /verif/DESIGN.md).
+// This file contains comments only; it is compiled only under the build tag "verif".
+
+//@ func compareALMPDigits
+//@   comparator a ~ b                                     [C01]
+
+//@ func compareSegments
+//@   comparator a ~ b                                     [C01]
+
+// prefix/suffix special case mixed with segment comparison: bounded stand-in.
+//@ func compareALMPVersionString
+//@   bounded alphabet "01a.+" maxlen 4
+//@   comparator a ~ b                                     [C01]
+
+// vercmp(8) defines a missing pkgrel as equal to any pkgrel; triples mixing both kinds are excluded by the property.
+//@ func (*Version).Compare
+//@   comparator v ~ other where v.hasPkgrel == other.hasPkgrel   [C01]
